@@ -307,8 +307,41 @@ def r6_r2_line(ctx, sym):
     ctx.floor('R2', 'attributes shifted by _fix_frame_line', len(shifted), 1)
 
 
+def section_offsets(ctx, sym):
+    """The section offset that syntax_error adds is the one next_section computes: the session table of C17.R3
+    (separate_into_sections -> next_section*, executed abstractly on files with form feeds, U+2028, adjacent markers)
+    decides that it is the number of lines CPython counts before the section. Shared with C17; reported here as R6s."""
+    from . import c17
+    smod = ctx.repo.module(c17.SECTIONS)
+    before = (len(ctx.obligations), len(ctx.findings))
+    had = 'R3' in ctx.rules
+    saved = ctx.rules.get('R3')
+    try:
+        text = sym.const(smod, smod.top_assign('DEFAULT_SECTION_PATTERN'))
+    except KeyError:
+        raise AnalysisError("DEFAULT_SECTION_PATTERN is not a literal")
+    import re as _re
+    if _re.compile(text).groups != 1:
+        return
+    c17.r3_next_section_table(ctx, sym, smod, text)
+    desc = ctx.rules.pop('R3')
+    if had:
+        ctx.rules['R3'] = saved
+    ctx.rules['R6s'] = "section offsets (shared with C17.R3): " + desc
+    for i in range(before[0], len(ctx.obligations)):
+        rule, key, ok = ctx.obligations[i]
+        if rule == 'R3':
+            ctx.obligations[i] = ('R6s', key, ok)
+    for f in ctx.findings[before[1]:]:
+        if f.rule == 'R3':
+            f.rule = 'R6s'
+    ctx.nontrivial = {('R6s' if (r == 'R3' and k.startswith(('next_section', 'stop-after'))) else r, k)
+                      for r, k in ctx.nontrivial}
+
+
 def run(ctx):
     sym = Symbols(ctx.repo)
+    section_offsets(ctx, sym)
     mod = ctx.repo.module(SOURCE)
     fn = mod.func('verify')
     ctx.analysed_function(mod, fn)
